@@ -82,3 +82,17 @@ Theorem C12_vesting_traces_export_import_is_identity :
   fold_left (fun st t => kset (gt_addr t) t st) (vstore_export_traces s) [] = vs_traces s.
 Proof. exact trace_store_export_import_identity. Qed.
 Print Assumptions C12_vesting_traces_export_import_is_identity.
+
+(* vesting types: what InitGenesis stores is in name order with both periods in whole seconds, and exporting such a store
+   (periods in the largest unit that divides them) and importing the export gives the same store: names, lock-up and vesting
+   periods in nanoseconds, free fractions *)
+Theorem C12_vesting_type_store_is_sorted_with_whole_second_periods :
+  forall g B s, vgenesis_init g B = Some s -> ksorted (vs_vtypes s) /\ Forall whole_seconds (vs_vtypes s).
+Proof. intros g B s H. split; [exact (init_vtype_store_sorted g B s H)|exact (init_vtype_store_whole_seconds g B s H)]. Qed.
+Print Assumptions C12_vesting_type_store_is_sorted_with_whole_second_periods.
+
+Theorem C12_vesting_types_export_import_is_identity :
+  forall s, ksorted (vs_vtypes s) -> Forall whole_seconds (vs_vtypes s) ->
+  vtypes_store (map gvtype_entry (vstore_export_vtypes s)) = vs_vtypes s.
+Proof. exact vtype_store_export_import_identity. Qed.
+Print Assumptions C12_vesting_types_export_import_is_identity.
